@@ -22,7 +22,12 @@ TRUSTED_EXTRA = [
 def _work(args):
     case, pid, want_item = args
     try:
-        tr, exact = xd.run_exact(case)
+        if case.get("monitor_only"):
+            # very long histories in the quick tier: one run, property monitors only (the thorough tier compares them
+            # with the model as well)
+            tr, exact = xd.run_case(case), False
+        else:
+            tr, exact = xd.run_exact(case)
     except Exception as ex:      # the driver itself failed: report, never silently skip
         import traceback
         return {"crash": traceback.format_exc(), "case": case}
@@ -111,7 +116,10 @@ def run_family(chk, pid, plan, special_cases=()):
     for profile, size, nq, nt in plan:
         n = common.tier_n(chk.tier, nq, nt)
         for _ in range(n):
-            cases.append((profile, xg.gen_case(rnd, profile, size)))
+            c = xg.gen_case(rnd, profile, size)
+            if profile == "thousand" and chk.tier == "quick":
+                c["monitor_only"] = True
+            cases.append((profile, c))
     with mp.Pool(min(14, max(2, os.cpu_count() - 2))) as pool:
         results = pool.map(_work, [(c, pid, True) for _, c in cases], chunksize=4)
     items, owners = [], []
@@ -128,7 +136,9 @@ def run_family(chk, pid, plan, special_cases=()):
         chk.count("order_events", r["events"])
         for k, v in r["kinds"].items():
             chk.count("op_" + k, v)
-        if not r["exact"]:
+        if r["case"].get("monitor_only"):
+            chk.count("monitor_only_cases")
+        elif not r["exact"]:
             chk.count("inexact_cases")
         if r["steps"] <= 12 and r["n_orders"] > 0:
             chk.sample({"case": {k: v for k, v in r["case"].items() if not k.startswith("_")},
@@ -136,7 +146,8 @@ def run_family(chk, pid, plan, special_cases=()):
         for (p, fp, k, msg) in r["alarms"]:
             if any(v[0] == fp for v in chk.violations):
                 continue
-            small = shrink_case(r["case"], lambda c: has_alarm(c, pid, fp))
+            # (a history of a thousand steps takes half a minute per run: it is reported as found)
+            small = shrink_case(r["case"], lambda c: has_alarm(c, pid, fp), budget=80 if r["steps"] < 400 else 0)
             tr = xd.run_case(small)
             al = [a for a in xm.run_monitors(tr, which=[pid]) if a[1] == fp]
             msg2 = al[0][3] if al else msg
